@@ -741,6 +741,16 @@ func (c *cellRun) judgeResult(v *verdicts, r callResult, primCat string, burst b
 				} else {
 					R.Count("returns/success-from-primary", 1)
 				}
+				if c.meth.describe != nil {
+					d := c.meth.describe(x.uid, x.spec.Class == clNOK)
+					R.Seen("returned_answer_variants/"+c.meth.Name, d)
+					if x.spec.Class == clOK && !r.cancelled && c.stallAt == "" {
+						R.Count("predicate/"+c.meth.Name+"/acceptable-answer-returned", 1)
+						if c.meth.Name == "NodeSyncing" && strings.Contains(d, "is_optimistic=true") {
+							R.Count("predicate/NodeSyncing/acceptable-optimistic-answer-returned", 1)
+						}
+					}
+				}
 				if x.spec.Class == clNOK {
 					R.Count("returns/not-ok-answer", 1)
 					if !r.cancelled {
